@@ -3,6 +3,8 @@ _TINY = ["ARDUINOJSON_SLOT_ID_SIZE=1", "ARDUINOJSON_POOL_CAPACITY=4", "ARDUINOJS
 def _hx_levels(depth, alphabet, defs, cap=0, extra=None):
     jobs = []
     tag = "%s%d_%s" % (alphabet, depth, "_".join(d.split("=")[-1] for d in defs) or "default")
+    for e in (extra or []):
+        tag += "_" + "".join(ch for ch in e if ch.isalnum())
     for lvl in range(1, depth + 1):
         jobs.append({"src": "checks/hx.cpp", "mode": "bfs", "defs": list(defs), "deps": ["checks/hx.hpp", "checks/hx_fault.hpp", "checks/hx_limits.hpp"],
                      "fallback_defs": ["VERIF_NO_INSPECTOR"],
@@ -21,8 +23,9 @@ PROPS["C04"] = {
     "rule": "transition = (reached state, enabled operation) executed on the real library; non-trivial = the transition changed the concrete state; "
             "states de-duplicated on model + pool/free-list/string-pool key",
     "assumptions": _HX_ASSUME,
-    "quick": _hx_levels(3, "reduced", _TINY),
-    "thorough": _hx_levels(4, "reduced", _TINY, cap=60000) + _hx_levels(3, "full", _TINY) + _hx_levels(3, "reduced", []),
+    "quick": _hx_levels(3, "reduced", _TINY) + _hx_levels(3, "reduced", _TINY, extra=["--api=handles"]),
+    "thorough": _hx_levels(4, "reduced", _TINY, cap=60000) + _hx_levels(3, "full", _TINY) + _hx_levels(3, "reduced", []) +
+                _hx_levels(4, "reduced", _TINY, cap=60000, extra=["--api=handles"]),
     "thorough_deadline": 2400,
 }
 _LEDGER_INPUTS = [{"src": "checks/ix_ledger.cpp", "mode": "ledger-inputs", "deps": ["checks/ix_ledger.hpp"]},
@@ -36,7 +39,7 @@ PROPS["C06"] = {
             "inputs on a ledger allocator (every string length around the builder and maximum-length boundaries, hostile MessagePack headers, all short MessagePack "
             "byte strings, generated documents): exactly-once release, no call during reads, peak bounded by one maximum-size string + linear in the bytes consumed",
     "assumptions": _HX_ASSUME,
-    "quick": _hx_levels(3, "reduced", _TINY) + _LEDGER_INPUTS,
-    "thorough": _hx_levels(4, "reduced", _TINY, cap=60000) + _hx_levels(3, "full", _TINY) + _LEDGER_INPUTS,
+    "quick": _hx_levels(3, "reduced", _TINY) + _hx_levels(3, "reduced", _TINY, extra=["--api=handles"]) + _LEDGER_INPUTS,
+    "thorough": _hx_levels(4, "reduced", _TINY, cap=60000) + _hx_levels(3, "full", _TINY) + _hx_levels(3, "full", _TINY, extra=["--api=handles"]) + _LEDGER_INPUTS,
     "thorough_deadline": 2400,
 }
